@@ -273,6 +273,40 @@ def genrun_trace(plan):
 
 
 
+def genrun_trace_uncached(plan):
+    """The plan of `genrun_trace` on a generator made with `enable_cache=False`."""
+    mode = {"now": "ok"}
+    mods, ran, trace = [], [], []
+
+    @h.paramclass
+    class P:
+        w = h.Param(dtype=int, desc="w")
+
+    @h.generator(enable_cache=False)
+    def G(p: P) -> h.Module:
+        ran.append(p.w)
+        if mode["now"] == "raise":
+            raise ValueError("planned failure")
+        if mode["now"] == "none":
+            return None
+        m = h.Module()
+        m.a = h.Port(width=p.w + 1)
+        return m
+
+    for w, what in plan:
+        mode["now"] = what
+        ran.clear()
+        try:
+            m = G(w=w)
+            if not any(m is x for x in mods):
+                mods.append(m)
+            res = {"module": next(k for k, x in enumerate(mods) if x is m)}
+        except Exception as ex:  # noqa
+            res = "failed: " + type(ex).__name__ + ": " + str(ex)[-80:]
+        trace.append({"result": res, "ran": list(ran)})
+    return trace
+
+
 def gen_events(rng, depth=0):
     """a random event tree: the call, what its body does this time (nested calls, catch or not, return / raise / return None)"""
     ev = {"c": rng.randrange(4)}
@@ -508,6 +542,76 @@ def repair_case(fr):
     return {"first": first, "repaired": res}
 
 
+INPLACE_FAULTS = ["unconnected", "width", "orphan"]
+INPLACE_EXTRAS = ["nothing", "pair", "pair_scalar", "array", "noconn", "refs", "bundle"]
+
+
+def inplace_case(fe):
+    """The fault is in `Top` itself and a checking pass refuses it; the designer mends the connection *in place*, adds something that
+    needs a rewriting pass, and exports again. Whether a module that failed may be mended at all is the library's choice (it refuses
+    with the first error); what must not come back is a package other than the one a fresh process builds from the mended design."""
+    fault, extra = fe
+
+    def build(healthy):
+        Leaf, Bn, goods = family()
+        T = h.Module(name="Top"); T.p = h.Port(); T.s = h.Signal()
+        T.keep = Leaf(a=T.p, b=T.s)
+        if healthy:
+            T.c = Leaf(a=T.p, b=T.s)
+        elif fault == "unconnected":
+            T.c = Leaf(a=T.p)
+        elif fault == "width":
+            T.w3 = h.Signal(width=3); T.c = Leaf(a=T.p, b=T.w3)
+        else:
+            T.c = Leaf(a=T.p, b=h.Signal())
+        return T, Leaf, Bn, goods
+
+    def mend(T, Leaf, Bn, goods, healthy):
+        if not healthy:
+            T.c.b = T.s
+            if fault == "width":
+                pass                    # w3 stays, unused
+        if extra == "pair":
+            T.dd = h.Diff(); T.pr = h.Pair(Leaf)(a=T.p, b=T.dd)
+        elif extra == "pair_scalar":
+            T.pr = h.Pair(Leaf)(a=T.p, b=T.s)
+        elif extra == "array":
+            T.w2 = h.Signal(width=2); T.arr = 2 * Leaf(a=T.p, b=T.w2)
+        elif extra == "noconn":
+            T.e = Leaf(a=T.p, b=h.NoConn())
+        elif extra == "refs":
+            T.e = Leaf(a=T.p); T.f = Leaf(a=T.p, b=T.e.b)
+        elif extra == "bundle":
+            T.bb = Bn(); T.g = goods["bundle"](p=T.p, bp=T.bb)
+
+    R, *rest = build(True)
+    if fault == "width":
+        R.w3 = h.Signal(width=3)
+    mend(R, *rest, True)
+    ref = _outcome(lambda: h.to_proto(R))
+    T, *rest = build(False)
+    first = _outcome(lambda: h.to_proto(T))
+    try:
+        mend(T, *rest, False)
+        got = _outcome(lambda: h.to_proto(T))
+    except Exception as e:
+        got = "raised (while editing) " + type(e).__name__
+    return {"first": "returned" if first.startswith("pkg") else first[:50], "ref": ref[:60], "got": got[:120]}
+
+
+def run_inplace(ctx):
+    rep = ctx.rep
+    cases = [(f, e) for f in INPLACE_FAULTS for e in INPLACE_EXTRAS]
+    for (f, e), res in zip(cases, common.pmap_fresh(inplace_case, cases)):
+        case = {"stream": "repair_in_place", "fault": f, "extra": e}
+        rep.count("repair_in_place", json.dumps(case))
+        if not res["first"].startswith("raised"):
+            rep.fail("corr", case, {"why": "the planted fault was not refused", "result": res})
+        elif res["got"].startswith("pkg") and res["got"] != res["ref"]:
+            rep.fail("pred", case, {"why": "after mending a refused module in place a package comes back which a fresh process does not build from the mended design", "result": res},
+                     f"inplace-wrong-package:{f}/{e}")
+
+
 def run_repairs(ctx):
     """The child of `Top` fails in one of the checking / rewriting passes; the designer replaces that instance by a healthy module
     (one that needs nothing of the earlier passes, one with an instance-to-instance reference, one with a bundle port) and
@@ -691,6 +795,24 @@ def run(ctx):
             if (got["done"] is not None and sorted(x[0] for x in want["done"]) != got["done"]) or got["pending"] not in (0, None) or got["stack"] not in (0, None) or want["pending"] != 0:
                 rep.fail("pred", case, {"why": f"after call {k} the generator cache is not what the calls so far leave behind", "model": want, "impl": got})
                 break
+    # the same plans on a generator made with `enable_cache=False`: nothing is remembered, so every call runs the body, whatever
+    # the earlier calls did — a failure included
+    for plan, tr in zip(plans, common.pmap_fresh(genrun_trace_uncached, plans)):
+        case = {"stream": "genrun_uncached", "plan": plan}
+        rep.count("genrun_uncached", json.dumps(plan))
+        mods = []
+        for k, ((w, what), got) in enumerate(zip(plan, tr)):
+            if got["ran"] != [w]:
+                rep.fail("pred", case, {"why": f"call {k} ({w}, body {what}) of an uncached generator: the body ran {got['ran']}", "impl": got})
+                break
+            if (what == "ok") != isinstance(got["result"], dict):
+                rep.fail("pred", case, {"why": f"call {k} ({w}, body {what}) of an uncached generator: {got['result']}", "impl": got})
+                break
+            if what == "ok":
+                if got["result"]["module"] in mods:
+                    rep.fail("pred", case, {"why": f"call {k}: an uncached generator returned a module it had returned before", "impl": got})
+                    break
+                mods.append(got["result"]["module"])
     # generators calling generators: event trees against GenRun.runEv
     nplans = [[gen_events(rng) for _ in range(rng.randint(2, 6))] for _ in range(40 if ctx.quick else 600)]
     nplans.insert(0, [{"c": 0, "ok": 0, "catches": True, "nested": [{"c": 1, "how": "raise", "catches": False, "nested": []}]},
@@ -740,6 +862,7 @@ def run(ctx):
                 rep.fail("corr", case, {"why": f"after call {k} the runner's state differs from the model's", "impl": got, "model": want})
                 break
     run_repairs(ctx)
+    run_inplace(ctx)
     rep.extra["scenarios"] = len(jobs)
     if jobs:
         rep.sample({"scenario": {k: v for k, v in jobs[0].items() if k not in ("unrelated", "design")}, "result": results[0]})
@@ -799,5 +922,14 @@ def replay(ctx, rp):
             return 0
         print(f"VIOLATION property=C08 replay={rp.get('_path', '<replay>')}")
         return 1
+    if c.get("stream") == "repair_in_place":
+        res = common.pmap_fresh(inplace_case, [(c["fault"], c["extra"])])[0]
+        print(json.dumps({"case": c, "result": res}))
+        if res["first"].startswith("raised") and not (res["got"].startswith("pkg") and res["got"] != res["ref"]):
+            return 0
+        print(f"VIOLATION property=C08 replay={rp.get('_path', '<replay>')}")
+        return 1
+    if c.get("stream") == "genrun_uncached":
+        print(json.dumps(genrun_trace_uncached([tuple(x) for x in c["plan"]])))
     print(json.dumps(rp.get("detail"), default=str)[:2000])
     return 1
